@@ -13,11 +13,14 @@ CONSTANT Sample      \* 0 = all configurations
 Items   == {"basic-auth", "api-basic-auth", "proxy", "credentials", "mitm-ca", "tls", "cacert"}
 Forms   == {"flag", "env", "file"}
 Levels  == {"error", "info", "debug"}
-Modes   == {"none", "short-url", "url", "errors"}
+\* api-url: a mode per module - the proxy keeps the default (errors), the API server logs in url mode
+Modes   == {"none", "short-url", "url", "errors", "api-url"}
 \* eqUser / inUser: the password equals the user name / occurs inside it - the user name stays visible, so what must
 \* never be shown is the password in its own position (user:password), and the rendering must still be exact
 Shapes  == {"alnum", "escape", "colon", "at", "slash", "pct", "long", "eqUser", "inUser"}
-Traffic == {"plain", "connect", "refused", "upstream-error"}
+\* site-5xx-then-api: the site the credentials are for answers 503 (that exchange may be dumped by the errors mode), then
+\* the API server answers a request - a successful exchange, logged by another logger of the same process
+Traffic == {"plain", "connect", "refused", "upstream-error", "site-5xx-then-api"}
 \* a configuration that parses but is refused at start-up for another reason: the refusal is part of the start-up log
 \*   dup-exact / dup-host / dup-port / dup-global: a second --credentials entry (with its own password) clashing with the first
 \*   bad-address: an unusable listen address;  missing-pac: a PAC file that does not exist;  key-mismatch: key of another pair
@@ -34,7 +37,9 @@ Cfgs == { c \in [item : Items, form : Forms, level : Levels, mode : Modes, shape
             /\ (c.item \in {"mitm-ca", "tls", "cacert"} => c.shape = "long")
             /\ (c.shape \in {"eqUser", "inUser"} => c.refusal = "none")
             /\ (c.traffic = "upstream-error" => c.item \in {"proxy", "credentials"})
-            /\ (c.item = "api-basic-auth" => c.traffic = "plain") }
+            /\ (c.item = "api-basic-auth" => c.traffic = "plain")
+            /\ (c.mode = "api-url" <=> c.traffic = "site-5xx-then-api")
+            /\ (c.traffic = "site-5xx-then-api" => c.item = "credentials" /\ c.refusal = "none") }
 
 \* the rendering of the item wherever the configuration is shown (user / host / port stay visible)
 Rendering(item) == CASE item \in {"basic-auth", "api-basic-auth"} -> "USER:xxxxx"
@@ -47,11 +52,12 @@ Expect(c) == [rendering |-> Rendering(c.item), startupLog |-> ShownAtStartup(c) 
               refused |-> c.refusal # "none"]
 
 \* always exercised: every item at every log level
-Must == { c \in Cfgs : /\ c.mode = "url" /\ c.traffic = "plain"
+Must == { c \in Cfgs : /\ ((c.mode = "url" /\ c.traffic = "plain") \/ (c.traffic = "site-5xx-then-api" /\ c.level = "info"))
                        /\ \/ c.shape = (IF c.item \in {"mitm-ca", "tls", "cacert"} THEN "long" ELSE "at")
                           \/ c.shape \in {"eqUser", "inUser"} /\ c.refusal = "none" /\ c.level = "info"
                        /\ \/ c.form = "flag" /\ c.refusal = "none"
                           \/ c.item = "cacert" /\ c.refusal = "none" /\ c.level = "info"                 \* a list flag: every form
+                          \/ c.traffic = "site-5xx-then-api" /\ c.form = "flag"
                           \/ c.refusal \in {"dup-exact", "dup-host", "dup-port", "dup-global"}     \* every form and level
                           \/ c.refusal \in {"bad-address", "missing-pac", "key-mismatch", "no-cert"} /\ c.form = "flag" /\ c.level = "info" }
 VARIABLE cfg
